@@ -1,41 +1,68 @@
 """C14 — errors point at the right template line; reported ranges are valid slices (DESIGN.md §3 C14)."""
-import json, os, re, collections
+import json, os, re, collections, subprocess, tempfile
+import common
 
 READY = True
 
 META = {
-    "technique": "Lean 4 proof (lexer line/column/offset bookkeeping, span widening, code generator line/span-stack machine, "
-                 "instruction line/span side tables, debug-render arithmetic, source ties decided on tables regenerated from /repo) "
-                 "+ differential correspondence of the model against the real tokenizer, parser spans, CodeGenerator, Instructions "
-                 "tables and located errors of planted failures under vertical/horizontal shifts and environment configurations",
+    "technique": "Lean 4 proof (lexer line/column/offset bookkeeping, span widening, parser span discipline, the code generator's "
+                 "line/span bookkeeping on whole programs — every compile_* arm —, instruction line/span side tables, debug-render "
+                 "arithmetic, source ties decided on tables regenerated from /repo) + differential correspondence of the model "
+                 "against the real tokenizer, the real parser's AST spans, the real CodeGenerator on real ASTs (per-pc name/line/span "
+                 "of every compiled program) and located errors of planted failures under vertical/horizontal shifts, "
+                 "newline-at-every-token-gap layouts, environment configurations and API entry points",
     "category": "proof",
     "text": "Kernel-checked theorems about an executable model of Tokenizer::{advance,loc,span,syntax_error}, "
-            "TokenStream::expand_span, CodeGenerator::{set_line,push_span,pop_span,add,add_with_span}, "
-            "Instructions::{add_with_line,add_with_span,get_line,get_span}, process_err and the arithmetic of render_debug_info: "
+            "TokenStream::{next,current_span,last_span,expand_span}, every arm of CodeGenerator::{compile_stmt,compile_expr,"
+            "compile_assignment,compile_call,compile_call_args,compile_macro_expression,compile_for_loop,...} reduced to its "
+            "set_line/push_span/pop_span/add/add_with_span/location-less add calls, Instructions::{add_with_line,add_with_span,"
+            "get_line,get_span}, process_err and the arithmetic of render_debug_info: "
             "the line is 1 + number of consumed newlines (saturating at 65535), the offset is the UTF-8 length of the consumed "
             "prefix, every span the tokenizer can create (for every possible sequence of advance/loc/span/syntax_error calls) is "
             "an in-bounds char-boundary slice whose line/column are those of its offsets, a prefix of N lines shifts every span by "
-            "exactly N lines and nothing else, text inserted in a line shifts only the columns of that line, an instruction added "
-            "after a balanced push/pop script gets the statement's line and no foreign span, the side tables return the recorded "
-            "line/span for every add sequence, the debug renderer's arithmetic never panics; and, decided on a table regenerated "
-            "from vm/mod.rs, every fallible expression of every instruction arm of the interpreter leaves through process_err. "
-            "Tied to /repo by running the model against the real tokenizer (all token spans), all AST spans, the real "
-            "CodeGenerator and Instructions (exhaustive small scripts + compiled templates) and by evaluating the property itself "
-            "(name, line inside source, range valid slice, shift invariance, some error on the failing construct, formatting never "
-            "panics) on the located error chains of ~2500 failing templates: one construct per fallible interpreter row x contexts, "
-            "span-less code generator sites x span-stack contexts x sub-expression kinds, failing prints in every construct, syntax "
-            "errors at every token position, under 7x4 shifts and 14 environment configurations / entry points.",
+            "exactly N lines and nothing else, text inserted in a line shifts only the columns of that line; a parse function that "
+            "remembers current_span() and expands covers exactly the tokens it consumed, one that remembers last_span() starts at "
+            "the token in front (span_covers_construct, _partial, _counterexample; which site does which is decided on a table "
+            "regenerated from parser.rs); for every AST whose construct line ranges nest and contain the start lines of the spans "
+            "(hypothesis wf, evaluated by the model driver on every AST of the real parser) EVERY instruction of EVERY compile arm "
+            "is recorded on a line within the first and last line of the construct whose arm emitted it "
+            "(instr_line_in_construct, _expr; excluded region = constant-folded comparisons, _counterexample); the side tables "
+            "return the recorded line/span for every add sequence, the debug renderer's arithmetic never panics; and, decided on a "
+            "table regenerated from vm/mod.rs, every fallible expression of every instruction arm of the interpreter leaves through "
+            "process_err. Tied to /repo by running the model against the real tokenizer (all token spans), the real parser (every AST "
+            "span classified against the token range of its construct), the real CodeGenerator run on the real AST of ~3700 "
+            "programs x 4 layouts (as written, newline at every / every even / every odd token gap inside tags): name, line and "
+            "span of every instruction of the root and of every block, equal to the model's; and by evaluating the property itself "
+            "(name, line inside source, range valid slice, shift invariance, some error on the lines of the failing operation's own "
+            "tokens, formatting never panics) on the located error chains of ~3000 failing templates: one construct per fallible "
+            "interpreter row x contexts, span-less code generator sites x span-stack contexts x sub-expression kinds, failing "
+            "prints in every construct, syntax errors at every token position, under 7x4 shifts, the three token-gap layouts, 14 "
+            "environment configurations and the entry points render / render_str / render_named_str / template_from_str / "
+            "template_from_named_str / add_template_owned / loader / render_block / call_macro / compile_expression+eval.",
     "design_ref": "DESIGN.md §3 C14",
-    "level_note": "Trusted: Lean kernel; hand transcription of the listed Rust functions into MJ/Model/Loc.lean (validated by the "
-                  "correspondence streams lex/ast/cg/tbl/ins); lib/tables/c14.py (regular-expression extraction of the interpreter "
-                  "rows, CodeGenerator::add sites and integer widths); std's binary_search_by_key is modelled by its contract on "
-                  "sorted slices (sortedness of the tables is proved). Only validated, not proved: that the tokenizer's rules, the "
-                  "parser and the statement compilers call the location primitives with the span of the construct at hand (checked "
-                  "by the shift / right-line oracle, the per-statement line-range check and the model predicting line, caret "
-                  "column/width and window from the reported offsets on every planted failure).",
+    "level_note": "Moved from validated to proved in this revision: (1) the parser's span discipline (what current_span/last_span + "
+                  "expand_span yield, theorem span_covers_construct with the last_span sites as explicit exception, tie "
+                  "source_tie_parser_spans); (2) the whole code generator: that every compile arm records every instruction on a "
+                  "line of its own construct (instr_line_in_construct over MJ/Model/LocAst.lean, 45 arms incl. call blocks, "
+                  "macros, blocks/sub-generators, fast paths of {{ super() }} / {{ loop(x) }} / {{ self.b() }}, short-circuit "
+                  "jumps without location). Trusted: Lean kernel; hand transcription of the listed Rust functions into "
+                  "MJ/Model/{Loc,LocAst,LocParse}.lean (validated by the correspondence streams lex/ast/cg/tbl/ins/cga/cge; cga "
+                  "compares all instructions of all programs); lib/tables/c14.py (regular-expression extraction of the interpreter "
+                  "rows, the Spanned::new sites of parser.rs, the location calls of codegen.rs and integer widths); std's "
+                  "binary_search_by_key is modelled by its contract on sorted slices (sortedness of the tables is proved). Inputs of "
+                  "the code generator model that other parts of /repo compute and the harness reads off the real objects: whether an "
+                  "expression is folded (Expr::as_const), the number of Enclose instructions of a macro (meta.rs), and the first / "
+                  "last line of every construct (lib/props/c14.py from the real token stream; wf is then checked by the model "
+                  "driver). Only validated, not proved: that the parser's grammar consumes exactly the tokens of a construct between "
+                  "remembering the start and expand_span (the span-vs-token-range classification of every real AST node checks it); "
+                  "that the simple line semantics execL of the theorem equals the run-length side tables (cross-checked by the driver "
+                  "on every program, per-primitive theorems cg_add_records_current_line / line_table_lookup); that the tokenizer's "
+                  "rules call the location primitives with the span of the token at hand (lex stream).",
 }
 
-CFG_NAMES = {"d": "default (debug on)", "x": "debug off", "p": "pass-through custom formatter", "n": "failing custom formatter",
+CFG_NAMES = {"1": "entry point Environment::render_str", "2": "entry point template_from_named_str", "3": "entry point add_template_owned",
+             "4": "entry point render_named_str", "5": "entry point template_from_str",
+             "d": "default (debug on)", "x": "debug off", "p": "pass-through custom formatter", "n": "failing custom formatter",
              "a": "custom auto-escape format", "k": "keep_trailing_newline", "t": "trim_blocks+lstrip_blocks",
              "c": "custom delimiters", "s": "strict undefined", "m": "semi-strict undefined", "h": "chainable undefined",
              "r": "recursion limit 1", "w": "render_captured_to a writer", "l": "loader-backed, lazily compiled templates"}
@@ -100,7 +127,7 @@ ROW_CASES = {
     "Slice||ctx_ok|ops::slice": ["row_slice_zero__"],
     "MergeKwargs||ctx_ok|Self::merge_kwargs": ["row_mergekwargs__"],
     "UnpackList||ctx_ok|Self::unpack_list": ["row_unpacklist__", "row_unpacklist_arity__"],
-    "UnpackLists||ctx_ok|list.try_iter": ["row_unpacklists__"],
+    "UnpackLists||ctx_ok|undefined_behavior.try_iter": ["row_unpacklists__"],
     "Add||func_binop|add": ["row_add__"], "Sub||func_binop|sub": ["row_sub__"],
     "Mul||func_binop|mul": ["row_mul__", "row_mul_overflow__"], "Div||func_binop|div": ["row_div__"],
     "IntDiv||func_binop|int_div": ["row_intdiv_zero__"], "Rem||func_binop|rem": ["row_rem_zero__"],
@@ -172,6 +199,51 @@ SITE_DETAIL = {
 UNANCHORED = {"expr_empty", "expr_ws_only"}
 
 V_N = {0: 0, 1: 1, 2: 2, 3: 7, 4: 300, 5: None, 6: 70000}   # 5: fill up to exactly 65535 lines, 6: beyond the quantifier
+EXPLODED_FIRST = 7   # vertical variants 7, 8, 9: a newline at every / every even / every odd token gap inside the tags
+EXPLODED_NAMES = {7: "newline at every token gap", 8: "newline at every even token gap", 9: "newline at every odd token gap"}
+ENTRY_CFGS = ("1", "2", "3", "4", "5")
+
+NSHARDS = min(8, max(2, (os.cpu_count() or 4) // 2))
+
+
+def run_parallel(cmds, inputs=None):
+    """run the commands concurrently (stdin/stdout through files); -> [(rc, stdout text, stderr text)]"""
+    os.makedirs(os.path.join(common.BUILD, "c14"), exist_ok=True)
+    procs = []
+    for i, cmd in enumerate(cmds):
+        fo = tempfile.TemporaryFile(mode="w+", dir=os.path.join(common.BUILD, "c14"))
+        fe = tempfile.TemporaryFile(mode="w+", dir=os.path.join(common.BUILD, "c14"))
+        fi = None
+        if inputs is not None:
+            fi = tempfile.TemporaryFile(mode="w+", dir=os.path.join(common.BUILD, "c14"))
+            fi.write(inputs[i]); fi.flush(); fi.seek(0)
+        procs.append((subprocess.Popen(cmd[0], stdin=fi if fi else subprocess.DEVNULL, stdout=fo, stderr=fe, env=cmd[1]), fo, fe, fi))
+    out = []
+    for p, fo, fe, fi in procs:
+        rc = p.wait(timeout=3000)
+        fo.seek(0); fe.seek(0)
+        out.append((rc, fo.read(), fe.read()))
+        for f in (fo, fe, fi):
+            if f:
+                f.close()
+    return out
+
+
+def harness_sharded(r, exe):
+    """`c14 gen <tier> k n` for every shard in parallel; the lines merged in work-item order"""
+    env = dict(common.ENV); env["VERIF_SEED"] = str(r.seed); env["VERIF_TIER"] = r.tier
+    res = run_parallel([([exe, "gen", r.tier, str(k), str(NSHARDS)], env) for k in range(NSHARDS)])
+    lines = []
+    for k, (rc, out, err) in enumerate(res):
+        if rc != 0:
+            r.broken.append(f"harness c14 (shard {k}/{NSHARDS}) exited {rc}: {err[-300:]}")
+            return None
+        for l in out.splitlines():
+            key, _, rest = l.partition("\t")
+            a, _, b = key.partition(".")
+            lines.append((int(a), int(b), rest))
+    lines.sort(key=lambda x: (x[0], x[1]))
+    return "\n".join(l[2] for l in lines) + "\n"
 
 
 def unhexs(h):
@@ -268,11 +340,31 @@ class Queries:
         if not self.lines:
             self.out = []
             return True
-        out = r.driver("drive_c14", "\n".join(self.lines) + "\n")
-        if out is None or len(out) != len(self.lines):
-            r.broken.append("model driver output does not line up with the requests")
+        ok, _ = r.lean_build(["drive_c14"])
+        if not ok:
+            r.broken.append("model driver drive_c14 does not build")
             self.out = None
             return False
+        exe = os.path.join(common.LEAN, ".lake", "build", "bin", "drive_c14")
+        n = len(self.lines)
+        # contiguous chunks of about equal size in bytes
+        total = sum(len(l) + 1 for l in self.lines)
+        chunks, cur, size = [], [], 0
+        for l in self.lines:
+            cur.append(l); size += len(l) + 1
+            if size >= total / NSHARDS and len(chunks) < NSHARDS - 1:
+                chunks.append(cur); cur, size = [], 0
+        if cur:
+            chunks.append(cur)
+        res = run_parallel([([exe], common.ENV) for _ in chunks], ["\n".join(c) + "\n" for c in chunks])
+        out = []
+        for (rc, o, e), c in zip(res, chunks):
+            ol = o.splitlines()
+            if rc != 0 or len(ol) != len(c):
+                r.broken.append(f"model driver drive_c14 exited {rc} / answered {len(ol)} of {len(c)} requests: {e[-300:]}")
+                self.out = None
+                return False
+            out += ol
         self.out = out
         return True
 
@@ -329,7 +421,11 @@ def evaluate(r, text, tables=None):
             do_cg(r, q, pending, case, f[1], res)
         elif f[0] == "stm":
             do_stm(r, case, res, fallible)
-    for s in ("err", "lex", "ast", "ins", "tbl", "cg", "stm"):
+        elif f[0] == "cga":
+            do_cga(r, q, pending, case, "s", f[1], res, tables, fallible)
+        elif f[0] == "cge":
+            do_cga(r, q, pending, case, "e", "o", res, tables, fallible)
+    for s in ("err", "lex", "ast", "ins", "tbl", "cg", "stm", "cga", "cge"):
         if streams[s] == 0:
             r.broken.append(f"harness produced no `{s}` cases")
 
@@ -432,11 +528,12 @@ def do_err(r, q, pending, err_recs, classes):
         if cid.startswith("print_") and cfg in ("p", "n", "a"):
             print_fail[cfg] += 1
         for (vi, hi), (case, rec) in variants.items():
+            exploded = vi >= EXPLODED_FIRST
             in_q = vi != 6 or rec["pe"] >= 0
             r.count(case, True)
             r.hist["err_class"][cls] += 1
             r.hist["err_config"][CFG_NAMES.get(cfg, cfg)] += 1
-            r.hist["v_shift"][("inner: %d line breaks" % rec["n"]) if rec["pe"] >= 0 else (str(V_N[vi]) if V_N[vi] is not None else "to 65535 lines")] += 1
+            r.hist["v_shift"][EXPLODED_NAMES[vi] if exploded else ("inner: %d line breaks" % rec["n"]) if rec["pe"] >= 0 else (str(V_N[vi]) if V_N[vi] is not None else "to 65535 lines")] += 1
             r.hist["h_shift"][["0", "1 col", "3 cols multi-byte", "65540 cols"][hi]] += 1
             if rec["panic"] is not None:
                 r.oracle_failure(case, "loading/rendering panics: " + rec["panic"], panic_site(rec["panic"]))
@@ -465,6 +562,12 @@ def do_err(r, q, pending, err_recs, classes):
             be, se = brec["errors"], rec["errors"]
             if cid in UNANCHORED:
                 pass    # nothing in the source the error could be anchored to: only the static predicates apply
+            elif exploded:
+                # another layout of the same template: same chain of the same errors; where they point is bounded
+                # by the right-line check above (the lines of the failing operation's own tokens)
+                if rec["how"] != brec["how"] or [(x.name, x.kind, x.detail) for x in be] != [(x.name, x.kind, x.detail) for x in se]:
+                    r.oracle_failure(case, f"line breaks between the tokens of the tags change the error chain: {brec['how']} {[x.brief() for x in be]} -> "
+                                     f"{rec['how']} {[x.brief() for x in se]}", "layout-changes-chain")
             elif rec["how"] != brec["how"] or len(be) != len(se):
                 r.oracle_failure(case, f"shift changes the error chain: {brec['how']} {[x.brief() for x in be]} -> {rec['how']} {[x.brief() for x in se]}",
                                  "shift-changes-chain")
@@ -600,6 +703,232 @@ def check_spanless_table(r, tables, failing_ids):
                 if not any(i.startswith(prefix) for i in failing_ids):
                     r.broken.append(f"no failing planted case `{prefix}*` for the span-less site Instruction::{name}")
 
+
+
+# ---------------------------------------------------------------------------------------------- cga / cge streams
+SPANLESS_KINDS = {"absent", "body", "cmpop", "apos", "akw", "asplat", "akwsplat", "withassign", "importname", "macroarg", "template"}
+STMT_KINDS = {"emitexpr", "emitraw", "for", "ifcond", "with", "set", "setblock", "autoescape", "filterblock", "block", "import", "fromimport",
+              "extends", "include", "macro", "callermacro", "callblock", "continue", "break", "do"}
+COMPARE_OPS = {"Eq", "Ne", "Lt", "Lte", "Gt", "Gte", "In"}
+# where the span of a node may start relative to the tokens of its construct (table C14_PARSER_SPANS says which
+# parser site builds which node from which start): cover = at the first token, inside = at a later token of the
+# construct (operator / name token), before = at the token in front of the construct (parse_compare, parse_ifexpr)
+ALLOWED_START = {
+    "var": {"cover"}, "const": {"cover"}, "list": {"cover"}, "map": {"cover"}, "neg": {"cover"},
+    "tuple": {"cover", "inside"}, "slice": {"cover", "inside"}, "attr": {"cover", "inside"}, "item": {"cover", "inside"},
+    "call": {"cover", "inside"}, "filter": {"cover", "inside"}, "test": {"inside"},
+    "bin": {"cover", "before"}, "cmp": {"before"}, "if": {"before", "inside"}, "not": {"cover", "inside", "before"},
+}
+PREV_TOKEN_KINDS = {"cmp", "if", "not", "bin"}
+
+
+class N:
+    __slots__ = "kind sp flags name num kids first last lo hi cls name_plain".split()
+
+
+def parse_sexp(toks, i):
+    assert toks[i] == "("
+    n = N()
+    n.kind = toks[i + 1]
+    n.sp = tuple(int(v) for v in toks[i + 2].split(":"))
+    n.flags = int(toks[i + 3]); n.name = toks[i + 4]; n.num = toks[i + 5]
+    n.kids = []
+    n.first = n.last = n.lo = n.hi = n.cls = None
+    i += 6
+    while toks[i] != ")":
+        k, i = parse_sexp(toks, i)
+        n.kids.append(k)
+    return n, i + 1
+
+
+def sexp_str(n, out):
+    out.append("( %s %s %d %s %s %d %d" % (n.kind, ":".join(map(str, n.sp)), n.flags, n.name, n.num, n.lo, n.hi))
+    for k in n.kids:
+        sexp_str(k, out)
+    out.append(")")
+
+
+def token_ranges(r, case, root, toks):
+    """first/last token index and line range of the construct of every node; classification of the span start"""
+    starts = {t[1][2]: i for i, t in reversed(list(enumerate(toks)))}
+    ends = {t[1][5]: i for i, t in enumerate(toks)}
+    match, stack = {}, []
+    for i, (k, _) in enumerate(toks):
+        if k == "po":
+            stack.append(i)
+        elif k == "pc" and stack:
+            match[stack.pop()] = i
+    fails = []
+
+    def walk(n, parent):
+        own = n.kind not in SPANLESS_KINDS and n.sp != (0, 0, 0, 0, 0, 0)
+        for k in n.kids:
+            walk(k, n)
+        kf = [k.first for k in n.kids if k.first is not None]
+        kl = [k.last for k in n.kids if k.last is not None]
+        if not own:
+            n.first, n.last = (min(kf), max(kl)) if kf else (None, None)
+            return
+        oe = ends.get(n.sp[5])
+        os_ = None if n.sp[:3] == (0, 0, 0) and toks and toks[0][1][:3] != (0, 0, 0) else starts.get(n.sp[2])
+        if n.sp[:3] == (0, 0, 0) and n.kind in PREV_TOKEN_KINDS and kf and min(kf) == 0:
+            os_ = None   # `last_span` before any token: Span::default()
+        if oe is None or (os_ is None and n.sp[:3] != (0, 0, 0)):
+            fails.append((f"AST span {n.sp} of a {n.kind} node does not start / end at a token boundary", f"ast-span-not-at-token:{n.kind}"))
+            n.first, n.last = (min(kf), max(kl)) if kf else (None, None)
+            return
+        if kl and max(kl) > oe:
+            fails.append((f"AST span {n.sp} of a {n.kind} node ends before its last child (token {max(kl)} > {oe})", f"ast-span-end:{n.kind}"))
+        n.last = max([oe] + kl)
+        # the first token of the construct
+        own_first = n.kind in STMT_KINDS or n.kind in ("var", "const", "map", "neg") or not kf
+        if n.kind == "list":
+            own_first = toks[os_][0] == "ko" if os_ is not None else False
+        elif n.kind == "tuple":
+            own_first = toks[os_][0] == "po" if os_ is not None else False
+        elif n.kind == "not":
+            own_first = os_ is not None and toks[os_][0] == "id.6e6f74" and os_ < min(kf)
+        elif n.kind == "filter" and n.kids and n.kids[0].kind == "absent":
+            own_first = True    # the filters of `{% filter a|b %}` / `{% set x | a %}` have no operand
+        if own_first and os_ is not None:
+            n.first = os_
+        else:
+            i = min(kf) if kf else os_
+            while i is not None and i > 0 and toks[i - 1][0] == "po" and match.get(i - 1) is not None and match[i - 1] <= n.last:
+                i -= 1
+            n.first = i
+        if os_ is None:
+            n.cls = "before"
+        elif os_ == n.first:
+            n.cls = "cover"
+        elif n.first < os_ <= n.last:
+            n.cls = "inside"
+        else:
+            n.cls = "before"
+            if os_ != n.first - 1:
+                fails.append((f"span of a {n.kind} node starts at token {os_}, {n.first - os_} tokens in front of its construct", f"ast-span-far-before:{n.kind}"))
+        r.hist["ast_span_start"][f"{n.kind}: {n.cls}"] += 1
+        allowed = ALLOWED_START.get(n.kind, {"cover"})
+        if n.cls == "before" and n.kind == "bin" and n.name_plain not in COMPARE_OPS:
+            allowed = {"cover"}
+        if n.cls not in allowed:
+            fails.append((f"the span {n.sp} of a {n.kind} node starts {n.cls} its construct (tokens {n.first}..{n.last}); allowed: {sorted(allowed)}",
+                          f"ast-span-start:{n.kind}:{n.cls}"))
+        elif n.cls == "before":
+            fails.append((f"the span {n.sp} of a {n.kind} node starts at the token in front of the expression (tokens {n.first}..{n.last}): "
+                          "parse_compare / parse_ifexpr take the start from last_span()", "ast-span-starts-at-previous-token"))
+
+    def names(n):
+        n.name_plain = "" if n.name == "-" else unhexs(n.name)
+        for k in n.kids:
+            names(k)
+    names(root)
+    walk(root, None)
+
+    def ranges(n, plo, phi):
+        if n.first is not None and n.kind not in SPANLESS_KINDS:
+            n.lo, n.hi = toks[n.first][1][0], toks[n.last][1][3]
+        else:
+            n.lo, n.hi = plo, phi
+        for k in n.kids:
+            ranges(k, n.lo, n.hi)
+    top_hi = max([t[1][3] for t in toks] + [1])
+    ranges(root, 0, top_hi) if root.kind == "template" else ranges(root, 1, top_hi)
+    if root.kind == "template":
+        root.lo, root.hi = 0, top_hi
+    return fails
+
+
+def do_cga(r, q, pending, case, mode, layout, res, tables, fallible):
+    how, _, body = res.partition("|")
+    if how == "panic":
+        r.count(case, True)
+        r.oracle_failure(case, "parsing / compiling panics: " + unhexs(body), panic_site(unhexs(body)))
+        return
+    if how != "ok":
+        r.count(case, False)
+        return
+    r.count(case, True)
+    r.hist["cga_layout"][{"o": "as written", "x0": "newline at every token gap", "x1": "at every even gap", "x2": "at every odd gap"}.get(layout, layout)] += 1
+    sexp, toks_s, tbls = body.split("|")
+    root, _ = parse_sexp(sexp.split(" "), 0)
+    toks = []
+    for t in toks_s.split(",") if toks_s else []:
+        k, _, sp = t.partition("@")
+        toks.append((k, tuple(int(v) for v in sp.split(":"))))
+    for what, site in token_ranges(r, case, root, toks):
+        r.oracle_failure(case, what, site)
+    out = []
+    sexp_str(root, out)
+    key = q.add_raw("cga %s %s" % (mode, " ".join(out)))
+    real = {}
+    for part in tbls.split(";"):
+        name, _, tb = part.partition("=")
+        real[unhexs(name) if name else ""] = tb
+
+    def check():
+        ans = q.raw(key)
+        if ans == "bad-case":
+            r.broken.append("the model driver cannot read the AST dump of " + case[:200])
+            return
+        w, bad, mt, tg = ans.split("|", 3)
+        model, tags = {}, {}
+        for i, part in enumerate(mt.split(";")):
+            if i == 0:
+                model[""] = part
+            else:
+                name, _, tb = part.partition("=")
+                model[name] = tb
+        for i, part in enumerate(tg.split(";")):
+            name, _, tb = ("", "", part) if i == 0 else part.partition("=")
+            tags[name] = [tuple(int(v) for v in x.split("-")) for x in tb.split(",")] if tb else []
+        # the property itself on the REAL tables: a fallible instruction recorded outside the lines of the construct
+        # it belongs to (attribution by the model's arms; possible whenever the instruction names line up)
+        outside = 0
+        for name, tb in real.items():
+            ents = [x.split("/") for x in tb.split(",")] if tb else []
+            mnames = [x.split("/")[0] for x in (model.get(name) or "").split(",")] if model.get(name) else []
+            if [e[0] for e in ents] != mnames or len(tags.get(name, [])) != len(ents) or w != "1":
+                continue
+            for pc, (e, (lo_, hi_)) in enumerate(zip(ents, tags[name])):
+                if e[0] in fallible and (e[1] == "-" or not (lo_ <= int(e[1]) <= hi_)):
+                    outside += 1
+                    r.oracle_failure(case, f"instruction #{pc} {e[0]} of {name or '<root>'} is recorded on line {e[1]}, outside the lines {lo_}..{hi_} of "
+                                     "the construct whose compile arm emits it: an error raised there is reported outside the failing construct",
+                                     f"cga-line-outside:{e[0]}")
+        if model != real:
+            for name in sorted(set(model) | set(real)):
+                if model.get(name) != real.get(name):
+                    a, b = (real.get(name) or "").split(","), (model.get(name) or "").split(",")
+                    d = next((i for i in range(max(len(a), len(b))) if i >= len(a) or i >= len(b) or a[i] != b[i]), 0)
+                    r.model_disagreement(case, f"instructions {name or '<root>'}: pc {d}: {a[d] if d < len(a) else '(end)'} ({len(a)} instructions)",
+                                         f"model: pc {d}: {b[d] if d < len(b) else '(end)'} ({len(b)} instructions)")
+            return
+        n_ins = sum(len(t.split(",")) for t in real.values() if t)
+        r.hist["cga_instr"]["compared (name, line, span)"] += n_ins
+        folded = False
+        if w != "1":
+            f = w.split(":")
+            kind, flag = (f[1].split(".")[-1], f[2]) if len(f) > 2 else ("?", "?")
+            if flag == "true" and kind in ("bin", "cmp", "ifx", "not"):
+                folded = True
+                r.oracle_failure(case, f"a constant-folded {kind} expression whose span starts on line {f[3]}, in front of its construct (lines {f[4]}..{f[5]}): its LoadConst "
+                                 "is recorded on the line of the previous token", "cga-const-folded-span-before-construct")
+            else:
+                r.oracle_failure(case, f"the span / line range of a {kind} node violates the parser invariant `wf` (span line {f[3] if len(f) > 3 else '?'}, "
+                                 f"construct lines {f[4] if len(f) > 4 else '?'}..{f[5] if len(f) > 5 else '?'})", f"cga-wf:{kind}")
+        if bad.startswith("D"):
+            r.model_disagreement(case, "side tables", "model: the line semantics execL and the side tables disagree")
+            bad = bad[1:]
+        for ent in bad.split(",") if bad else []:
+            pc, name, line, lo, hi = ent.split(":")
+            if name not in fallible or folded:
+                # LoadConst of the folded comparison and the location-less short-circuit jump that inherits its line
+                r.hist["cga_instr"]["instruction on the line of a const-folded comparison's previous token"] += 1
+                continue
+            r.oracle_failure(case, f"instruction {name} is recorded on line {line}, outside the lines {lo}..{hi} of the construct it belongs to",
+                             f"cga-line-outside:{name}")
+    pending.append(check)
 
 # ---------------------------------------------------------------------------------------------- cg / stm streams
 def do_cg(r, q, pending, case, ops, res):
@@ -826,33 +1155,47 @@ def do_ins(r, q, pending, case, spec, res):
 def run(r):
     r.rule = ("err: failing templates = fixed-site cases (runtime errors in every construct incl. macros, blocks, includes, super, "
               "call/filter blocks, loops; every lexer/parser error site; failing prints in 31 constructs; one construct per fallible "
-              "row of eval_impl (table C14_VM_ROWS) x 8 contexts; span-less code generator sites x 20 span-stack contexts x 9 "
-              "sub-expression kinds; user code handing through located errors; lazily loaded templates with syntax errors / "
-              "failing loaders; render_block / call_macro / render_captured / Expression API entry points) and syntax errors planted "
-              "at every token position of 13 base templates, each under vertical shifts {0,1,2,7,300,up to 65535 lines,70000} x "
+              "row of eval_impl (table C14_VM_ROWS) x 10 contexts incl. the entry points render_block / call_macro / "
+              "compile_expression; span-less code generator sites x 20 span-stack contexts x 9 sub-expression kinds; user code "
+              "handing through located errors; lazily loaded templates with syntax errors / failing loaders) and syntax errors "
+              "planted at every token position of 13 base templates, each under vertical shifts {0,1,2,7,300,up to 65535 lines,70000} x "
               "horizontal shifts {0,1,3 multi-byte,65540 columns} x environment configurations {default, debug off, pass-through / "
               "failing formatter, custom auto-escape format, keep_trailing_newline, trim+lstrip, custom delimiters, strict / "
-              "semi-strict / chainable undefined, recursion limit 1, writer output, loader-backed} (quick tier: whole shift grid in "
-              "the default configuration, reduced grids elsewhere, generated sites rotate contexts/kinds; thorough: everything); "
+              "semi-strict / chainable undefined, recursion limit 1, writer output, loader-backed} x entry points {render_str, "
+              "render_named_str, template_from_str, template_from_named_str, add_template_owned} and, for every run-time failure, the "
+              "three layouts with a newline at every / every even / every odd token gap inside the tags (rule there: the report lies "
+              "on the lines of the failing operation's own tokens) (quick tier: whole shift grid in the default configuration, "
+              "reduced grids elsewhere, generated sites rotate contexts/kinds; thorough: everything); "
               "lex: all those sources + random token soups under 4 lexer configurations; ast/ins/stm: every AST span, every "
-              "instruction's line/span and per top-level statement line range of all valid templates; tbl/cg: every add sequence / "
-              "code generator script up to length 5/4 (6/5 thorough) + random long ones. Non-trivial = yields an error / tokens / "
-              "spans / instructions.")
+              "instruction's line/span and per top-level statement line range of all valid templates; cga/cge: the real AST of every "
+              "valid template / expression of the case lists in 4 layouts -> span of every node vs. the token range of its construct, "
+              "model code generator vs. real per-pc (name, line, span) of root and blocks, wf and line-in-construct per instruction; "
+              "tbl/cg: every add sequence / code generator script up to length 5/4 (6/5 thorough) + random long ones. "
+              "Non-trivial = yields an error / tokens / spans / instructions.")
     r.assumptions = ["sources shorter than 2^32 bytes (offsets are stored as u32)",
                      "slice::binary_search_by_key meets its documented contract on sorted slices",
                      "shift invariance is claimed for templates of at most 65535 lines (u16 line counter saturates beyond)",
                      "errors raised by an API entry point itself (render_block / call_macro on a missing name or under a recursion "
                      "limit that already forbids their frame) belong to no template construct and are not expected to be located"]
-    st = r.regen_tables(["C14_CODEGEN_ADDS", "C14_VM_FALLIBLE", "C14_VM_ROWS", "C14_LOC_WIDTHS"])
+    import time
+    t0 = time.time(); phases = {}
+    st = r.regen_tables(["C14_CODEGEN_ADDS", "C14_VM_FALLIBLE", "C14_VM_ROWS", "C14_LOC_WIDTHS", "C14_PARSER_SPANS", "C14_CODEGEN_ARMS"])
+    phases["tables"] = round(time.time() - t0, 1); t0 = time.time()
     r.lean_prove("MJ.Props.C14", "MJ/Audit/C14.lean", extra_targets=["drive_c14"])
+    phases["lean"] = round(time.time() - t0, 1); t0 = time.time()
     exe = r.cargo_build("c14")
+    phases["cargo"] = round(time.time() - t0, 1); t0 = time.time()
     if exe is None:
         return
-    rc, out, err = r.harness(exe, ["gen", r.tier])
-    if rc != 0:
-        r.broken.append(f"harness c14 exited {rc}: {err[-300:]}")
+    out = harness_sharded(r, exe)
+    phases["harness"] = round(time.time() - t0, 1); t0 = time.time()
+    if out is None:
         return
+    r.extra["shards"] = NSHARDS
     evaluate(r, out, st.get("items", {}))
+    phases["evaluate+model"] = round(time.time() - t0, 1)
+    r.extra["phase_seconds"] = phases
+    r.log("phases (s):", phases)
 
 
 def replay(r, path):
